@@ -1,10 +1,100 @@
 import KawinV.Proto
-/-! driver verbs for C15 (stub: no verbs yet) -/
+import KawinV.Gen.C15Shape
+import KawinV.Model.ShapeWrap
+import KawinV.Model.Bisect
+/-! driver verbs for C15: generated shape formulas, wrapper model, bisection model (Float instance) -/
 namespace KawinV.Drv.C15
-open KawinV.Proto
+open KawinV.Proto KawinV.Gen.C15 KawinV.Shape KawinV.Bisect
+
+structure ShapeFns where
+  radii : Float → List Float
+  eq : Float → Float
+  th : Float → Float
+  kin : Float → Float
+  eqMin : Float
+  thMin : Float
+  kinMin : Float
+
+def shapeOf : Nat → Option ShapeFns
+  | 0 => some ⟨needle_normalRadii_all, needle_eqRadius, needle_thermoFactor, needle_kineticFactor,
+               needle_eqRadiusFactorMin, needle_thermoFactorMin, needle_kineticFactorMin⟩
+  | 1 => some ⟨plate_normalRadii_all, plate_eqRadius, plate_thermoFactor, plate_kineticFactor,
+               plate_eqRadiusFactorMin, plate_thermoFactorMin, plate_kineticFactorMin⟩
+  | 2 => some ⟨cuboid_normalRadii_all, cuboid_eqRadius, cuboid_thermoFactor, cuboid_kineticFactor,
+               cuboid_eqRadiusFactorMin, cuboid_thermoFactorMin, cuboid_kineticFactorMin⟩
+  | 3 => some ⟨sphere_normalRadii_all, sphere_eqRadius, sphere_thermoFactor, sphere_kineticFactor,
+               sphere_eqRadiusFactorMin, sphere_thermoFactorMin, sphere_kineticFactorMin⟩
+  | _ => none
+
+def shape : P ShapeFns := do
+  let k ← nat
+  match shapeOf k with
+  | some s => pure s
+  | none => failure
+
+/-- which factor: 0 eqRadiusFactor, 1 thermoFactor, 2 kineticFactor → (…Min, inner formula) -/
+def pick (s : ShapeFns) : Nat → Option (Float × (Float → Float))
+  | 0 => some (s.eqMin, s.eq)
+  | 1 => some (s.thMin, s.th)
+  | 2 => some (s.kinMin, s.kin)
+  | _ => none
+
+/-- the aspect-ratio functions of the radius used by the correspondence cases -/
+def arFun (kind : Nat) (p0 p1 p2 : Float) (r : Float) : Float :=
+  match kind with
+  | 0 => p0
+  | 1 => p0 + p1 * (r / p2)
+  | 2 => p0 * Float.pow (r / p2) p1
+  | _ => p0 + p1 / (1.0 + r / p2)
+
+/-- c15.gen shape ars → per ar: r0 r1 r2 eqRadius thermo kinetic (inner formulas, no wrapper) -/
+def gen : P String := do
+  let s ← shape; let ars ← flts
+  pure (flist (ars.flatMap (fun a => s.radii a ++ [s.eq a, s.th a, s.kin a])))
+
+/-- c15.mins shape → eqRadiusFactorMin thermoFactorMin kineticFactorMin -/
+def mins : P String := do
+  let s ← shape
+  pure (flist [s.eqMin, s.thMin, s.kinMin])
+
+/-- c15.wrap shape which ars → wrapper output (array call), per-element scalar calls, caller's array after -/
+def wrap : P String := do
+  let s ← shape; let w ← nat; let ars ← flts
+  match pick s w with
+  | none => failure
+  | some (fmin, f) =>
+    let out := wrapArr fmin f ars
+    let sc := ars.map (wrapScalar fmin f)
+    pure s!"{flist out} {flist sc} {flist (processAspectRatio ars).2}"
+
+/-- c15.radii shape ars → normalRadii rows flattened (array call), scalar calls flattened, caller's array after -/
+def radii : P String := do
+  let s ← shape; let ars ← flts
+  let out := (radiiArr s.radii ars).flatten
+  let sc := ars.flatMap (radiiScalar s.radii)
+  pure s!"{flist out} {flist sc} {flist (processAspectRatio ars).2}"
+
+/-- c15.bisect shape kind p0 p1 p2 tol Rs Rmax → fallback iters r final.minR final.maxR -/
+def bisect : P String := do
+  let s ← shape; let k ← nat; let p0 ← flt; let p1 ← flt; let p2 ← flt
+  let tol ← flt; let rs ← flt; let rmax ← flt
+  let tf : Float → Float := fun r => wrapScalar s.thMin s.th (arFun k p0 p1 p2 r)
+  let o := findRcrit tol rs rmax tf
+  pure s!"{bstr o.fallback} {o.iters} {fout o.r} {fout o.final.minR} {fout o.final.maxR}"
+
+/-- c15.rscalar shape ar Rs → _findRcritScalar -/
+def rscalar : P String := do
+  let s ← shape; let ar ← flt; let rs ← flt
+  pure (fout (findRcritScalar rs (fun _ => wrapScalar s.thMin s.th ar)))
 
 def handle (verb : String) : Option (P String) :=
   match verb with
+  | "c15.gen" => some gen
+  | "c15.mins" => some mins
+  | "c15.wrap" => some wrap
+  | "c15.radii" => some radii
+  | "c15.bisect" => some bisect
+  | "c15.rscalar" => some rscalar
   | _ => none
 
 end KawinV.Drv.C15
